@@ -175,7 +175,11 @@ CHECKS = {
              "for seeded unit/constant selections x io/noio and its output compiled with an empty include path, included twice, and "
              "in two TUs linked at IR level; an API-surface TU lowered against the single file and against the tree, and under "
              "C++14/17/20, must give identical normalised IR DAGs per function.  Bounded by the seeded selections and the "
-             "hand-written API surface; g++/clang run-time equality is decided only as equal accept/reject.",
+             "hand-written API surface; g++/clang run-time equality is decided only as equal accept/reject.  Constant-expression parity: "
+             "one use per public operation inside a constant expression, judged under all six configurations and required to be accepted or "
+             "refused alike; the table is tied to the API by a coverage rule (the public constexpr members of Quantity / QuantityPoint / "
+             "Constant / Zero and the constexpr free functions of namespace au are read from the tree with clang-query; one without an entry, "
+             "or without a stated excuse, fails the check as analysis-broken).",
         design_ref="3.20", technique="tree / preprocessor / include-graph / clang-query rules + compile matrix + IR DAG identity between packagings and standards",
         note=TRUST_W + "; tools/bin/make-single-file run as a build step; " + TRUST_I, engine="S+W+I"),
     "C14": dict(
